@@ -37,10 +37,7 @@ MUTANTS = [
     ("c03-deadend-ge", "C03", L, "filter(lambda x: len(self.get_coord_neighbors(x)) == 1, allowed_end_set)", "filter(lambda x: len(self.get_coord_neighbors(x)) >= 1, allowed_end_set)"),
     ("c03-arange-minus1", "C03", MD, "maze_indexes: Int[np.int8, \"maze_index\"] = np.arange(cfg_cpy.n_mazes)", "maze_indexes: Int[np.int8, \"maze_index\"] = np.arange(cfg_cpy.n_mazes - (1 if cfg_cpy.n_mazes > 30 else 0))"),
     ("c04-skip-reseed", "C04", DS, "        set_reproducibility(self.seed)", "        if self.seed != GLOBAL_SEED:\n            set_reproducibility(self.seed)"),
-    ("c04-from_config-fixes-up-callers-n_mazes", "C04", DS, "            output = output._apply_filters_from_config()
-", "            output = output._apply_filters_from_config()
-            cfg.n_mazes = len(output)
-"),
+    ("c04-from_config-fixes-up-callers-n_mazes", "C04", DS, "            output = output._apply_filters_from_config()\n", "            output = output._apply_filters_from_config()\n            cfg.n_mazes = len(output)\n"),
     ("c05-soln-cat-split", "C05", MD, "np.cumsum(maze_solution_lengths)[:-1], axis=0", "np.cumsum(maze_solution_lengths)[1:], axis=0"),
     ("c05-minimal-int8-lengths", "C05", MD, "maze_solution_lengths: np.ndarray = np.empty((n_mazes,), dtype=np.int32)", "maze_solution_lengths: np.ndarray = np.empty((n_mazes,), dtype=np.int8)"),
     ("c05-drop-collected", "C05", MD, "            cfg=MazeDatasetConfig.load(data[\"cfg\"]),\n            generation_metadata_collected=data[\"generation_metadata_collected\"],\n            mazes=[", "            cfg=MazeDatasetConfig.load(data[\"cfg\"]),\n            generation_metadata_collected=None,\n            mazes=["),
